@@ -110,11 +110,35 @@ def io_calls(b, region=None):
         elif last == "seek" and ("Seek" in n):
             out.append((s, "seek", None, None))
         elif last in ("write_all", "write", "read_exact", "read", "read_to_end", "flush", "take") and ("io::Write" in n or "io::Read" in n):
-            out.append((s, last, None, None))
+            iv = _int_bytes_arg(b, s) if last == "write_all" else None
+            if iv is not None:
+                # `w.write_all(&x.to_be_bytes())` is `w.write_u64::<BigEndian>(x)`: one write_all of the same bytes
+                out.append((s, "write", iv[0], iv[1]))
+            else:
+                out.append((s, last, None, None))
     order = dom_order(b, [x[0] for x in out])
     pos = {s: i for i, s in enumerate(order)}
     out.sort(key=lambda x: pos[x[0]])
     return out
+
+
+def _int_bytes_arg(b, s):
+    """(width in bytes, endianness, integer expr) when the buffer handed to the write at `s` is `<int>.to_Xe_bytes()`"""
+    a = b.arg_exprs(s)
+    if len(a) < 2:
+        return None
+    v = a[1].strip()
+    if v.k == "call":
+        cv = int_conv(v.x.get("info") or {"path": v.x["path"]})
+        if cv and cv[2] == "write" and v.a:
+            return (WIDTH.get(cv[0], cv[0]), cv[1], v.a[0])
+    return None
+
+
+def io_value(b, s):
+    """the integer written at site s of io_calls kind 'write', whichever spelling"""
+    iv = _int_bytes_arg(b, s)
+    return iv[2] if iv is not None else b.arg_exprs(s)[1]
 
 
 def version_arms(b, on_self_field=None):
@@ -144,7 +168,7 @@ def trailer_write(F):
             if kind != "write":
                 seq.append((kind,))
                 continue
-            v = b.arg_exprs(s)[1]
+            v = io_value(b, s)
             k = fold(v)
             vs = v.strip()
             if k is not None:
@@ -296,7 +320,7 @@ def block_frame_write(F):
     for s, kind, w, en in io_calls(b):
         a = b.arg_exprs(s)
         if kind == "write":
-            v = a[1]
+            v = io_value(b, s)
             from_len = any(x.k == "call" and x.x["path"].endswith("::len") for x in v.walk()) and comp and any(x.k == "call" and x.x.get("site") == comp[0][0] for x in v.walk())
             seq.append((w, en, "len(compressed)" if from_len else v.show()[:60], is_arg(a[0], "writer")))
         elif kind == "write_all":
